@@ -6,6 +6,11 @@ ids = [json.loads(l)["id"] for l in open(os.path.join(HERE, "properties.jsonl"))
 
 # id -> (category, technique, level text, level note, design ref)
 CLAIMED = {
+ "C13": ("exploration",
+         "differential property-based testing of the library's pure derivations (hook) against an independent RFC 9420 implementation on bare SHA-2/HMAC, calibrated on the IETF vectors; end-to-end recomputation on live groups",
+         "Random inputs to every derivation (key schedule, PSK chain, secret tree nodes, ratchet keys/nonces up to generation 2000, exporter, sender-data key, tags, transcript hashes) for all 7 suites and all providers are compared byte for byte with an independent implementation; on live groups the public commit message and the previous epoch's secrets reproduce every secret of the next epoch.",
+         "Trusts refmodel (calibrated on the IETF basic-crypto, key-schedule, psk, secret-tree and transcript vectors at start-up) and the SHA-2/HMAC crates.",
+         "DESIGN.md §4 C13"),
  "C02": ("exploration",
          "stateful property-based testing with a recording crypto-provider wrapper: every HPKE seal of every commit is compared with an independent tree model; removed parties are fed all later traffic",
          "For every commit of generated removal-centred histories, the set of public keys each path secret is HPKE-encrypted to is compared with the copath resolutions of the NEW exported tree computed by the independent model (minus leaves added in the commit); Welcome seals must match the joiners' init keys; removed parties must fail to process every later message and keep their old epoch/authenticator. Secrecy itself is decided only through these observable consequences.",
